@@ -713,6 +713,20 @@ func TestC07(t *testing.T) {
 				}
 			}
 		}
+		// text lines that begin like a block keyword of some dialect without being one in the library's: text all the same
+		lookalike := "1\n00:00:01,000 --> 00:00:02,000\nREGIONAL NEWS\nat ten\n\n2\n00:00:03,000 --> 00:00:04,500\nREGIONS OF FRANCE\nREGION\nlast line\n\n" +
+			"3\n00:00:05,000 --> 00:00:06,000\nNOTES on a page\nNOTEBOOK\n\n4\n00:00:07,000 --> 00:00:08,000\nRegional\nregion: x\nStyles\n\n5\n00:00:09,000 --> 00:00:10,000\nplain\n"
+		lookalikeVTT := "WEBVTT\n\n" + strings.ReplaceAll(lookalike, ",", ".")
+		for _, dst := range c07Dests {
+			for k, src := range []string{"srt", "vtt"} {
+				doc := []byte(lookalike)
+				if src == "vtt" {
+					doc = []byte(lookalikeVTT)
+				}
+				ev.CaseH(true, mix(strHash("lookalike"+src+dst), uint64(k)), "matrix", "text-lines-that-begin-like-a-block-keyword")
+				verdict(t, "C07", "c07", c07Case{Src: src, SrcExt: src, Doc: doc, Dst: dst, DstExt: dst, CLI: dst == "vtt"}, checkC07)
+			}
+		}
 		// definitions that only inheritance reaches, through every operation that may drop definitions, to every destination
 		deep := ttmlDoc{
 			Styles: []ttmlDef{{ID: "a", Ref: "b", Attrs: map[string]string{"color": "white"}}, {ID: "b", Ref: "c", Attrs: map[string]string{"fontSize": "10px"}},
